@@ -376,7 +376,12 @@ impl<'t, 'a> FnGen<'t, 'a> {
                 (
                     "duplicate_parameter",
                     vec![
-                        Stmt::Function { name: dup.clone(), params: vec![p.clone(), p.clone()], body: vec![Stmt::Return { value: var(&p) }] },
+                        // (the second mention often in another letter case: still the same name)
+                        Stmt::Function {
+                            name: dup.clone(),
+                            params: vec![p.clone(), if self.t.chance(2, 3) { super::names::recase(&p, self.t) } else { p.clone() }],
+                            body: vec![Stmt::Return { value: var(&p) }],
+                        },
                         say(strlit("defined")),
                         say(call(&dup, vec![num(1.0), num(2.0)])),
                     ],
